@@ -107,6 +107,12 @@ def checkRange (range : Option Range) (T : Rat) : Except Err Unit :=
   | none => .ok ()
   | some r => if outsideR r T then .error .outside else .ok ()
 
+/-- `check_range` (base.py:45-71) when `T` is an array: `np.any(T < lo) or np.any(T > hi)` decides for the whole array -/
+def checkRangeArr (range : Option Range) (Ts : List Rat) : Except Err Unit :=
+  match range with
+  | none => .ok ()
+  | some r => if Ts.any (fun T => decide (T < r.1)) || Ts.any (fun T => decide (T > r.2)) then .error .outside else .ok ()
+
 /-- `get_CpoR` (raw_data.py:79-92) -/
 def RawData.CpoR (d : RawData) (T : Rat) : Except Err Rat :=
   match checkRange (some d.range) T with
